@@ -418,7 +418,10 @@ pub fn build(family: &str, ta: i64, tn: i64, ti: i64, l: u32, handler: i8, answe
             inject(&mut sc, Trigger::OnIndication { entity: 0, put: 0, kind: "eof-sent".into(), delay_ms: 20 }, pup.ack_eof(Condition::NoError));
             for k in 0..answers {
                 let t = 20 + (k as u64 + 1) * (ti as u64 * 1500);
-                inject(&mut sc, Trigger::OnIndication { entity: 0, put: 0, kind: "eof-sent".into(), delay_ms: t }, pup.keepalive(10));
+                // the answer is a keep-alive, or (flag `immediate`, meaningless for a sender otherwise) a NAK for the first segment:
+                // any PDU from the peer is a sign of life and resets the count
+                let answer = if immediate { pup.nak(0, 32, &[(0, 32)]) } else { pup.keepalive(10) };
+                inject(&mut sc, Trigger::OnIndication { entity: 0, put: 0, kind: "eof-sent".into(), delay_ms: t }, answer);
             }
         }
         "R-ack" => {
@@ -499,7 +502,7 @@ retransmission) x deferred/immediate NAK; exhaustive over this grid, repeated un
                             continue;
                         }
                         for immediate in [false, true] {
-                            if immediate && !family.starts_with('R') {
+                            if immediate && !family.starts_with('R') && !(family == "S-inact" && answers > 0) {
                                 continue;
                             }
                             // the timeout under test is t; the other two are set apart so that they do not fire first
